@@ -177,7 +177,7 @@ def main():
   env.install_keras2_graph_shims()
   n = 16 if rep.tier == "quick" else 300
   po2_t, auto_t, items = [], [], []
-  n_ok = n_ind = 0
+  n_ok = n_ind = n_frozen = 0
   sample = None
   for i in range(n):
     try:
@@ -195,6 +195,15 @@ def main():
       elif r_ == 2:
         w_.reshape(-1)[0] = np.float32(1e-30)    # tiny (far below every code)
     m.set_weights(ws)
+    # frozen layers (fine-tuning with part of the network fixed): the export must quantize their weights as well.  In rotation:
+    # no frozen layer, one frozen weight-bearing quantized layer, every layer frozen
+    wl_ = [l for l in m.layers if hasattr(l, "get_quantizers") and l.get_weights()]
+    if i % 3 == 1 and wl_:
+      wl_[(i // 3) % len(wl_)].trainable = False
+    elif i % 6 == 5:
+      for l_ in wl_:
+        l_.trainable = False
+    n_frozen += sum(1 for l_ in wl_ if not l_.trainable)
     rep.count(m.to_json())
     x = tf.constant(rng.normal(0, 1, size=(3,) + tuple(m.input_shape[1:])).astype(np.float32))
     ind = all(not isinstance(getattr(q, "alpha", None), str) for l in m.layers if hasattr(l, "get_quantizers") for q in l.get_quantizers() if q is not None)
@@ -404,7 +413,7 @@ def main():
       bad_bn += 1
       rep.violation(f"bn-fuse-float-{it[0]}-{it[1]}", f"add_bn_fusing_weights (scale={it[2]}, center={it[3]}, quantized={it[4]}, use_bias={it[5]}) channel {it[1]}: "
                     f"bn_inv / fused_bias differ from gamma*rsqrt(var+eps) / inv*bias + beta - inv*mean (code {r_})", {})
-  rep.note(models=n, models_all_checks_ok=n_ok, data_independent_models=n_ind, po2_elements=len(res["po2"]), auto_po2_elements=len(res["auto"]),
+  rep.note(models=n, frozen_quantized_layers=n_frozen, models_all_checks_ok=n_ok, data_independent_models=n_ind, po2_elements=len(res["po2"]), auto_po2_elements=len(res["auto"]),
            bn_fusing_channels=len(res["bn"]), bad_po2_tensors=bad_po2, bad_auto_tensors=bad_auto, bad_bn_channels=bad_bn)
   if sample:
     rep.sample(sample)
